@@ -13,10 +13,10 @@
 #include "vsched/vsched.h"
 #include "C05_common.h"
 
-struct Cfg { int nt, F, ff, N; bool ord; };  // N = -1: --nframes absent
+struct Cfg { int nt, F, ff, N; bool ord; bool ul = false; };  // N = -1: --nframes absent; ul: the instant after every mutex unlock is a scheduling point too
 static std::string cfgstr(const Cfg &c) {
   return "nt=" + std::to_string(c.nt) + ";F=" + std::to_string(c.F) + ";ff=" + std::to_string(c.ff) + ";N=" + std::to_string(c.N) +
-         ";ord=" + (c.ord ? "1" : "0");
+         ";ord=" + (c.ord ? "1" : "0") + (c.ul ? ";ul=1" : "");
 }
 
 static bool g_force_tids = false;  // interpret the prefix as thread ids (model -> implementation replay)
@@ -32,6 +32,7 @@ static void child_body(const Cfg &c, vs_shared *shm, const std::vector<int> &cho
   for (auto &s : av) argv.push_back(const_cast<char *>(s.c_str()));
   App app;
   app.ordered = c.ord;
+  vs_set_unlock_points(c.ul ? 1 : 0);
   if (g_force_tids) vs_begin_tids(shm, choices.data(), (int)choices.size(), horizon);
   else vs_begin(shm, choices.data(), (int)choices.size(), horizon);
   int rc = app.Exec((int)argv.size(), argv.data());
@@ -220,7 +221,7 @@ int main(int argc, char **argv) {
   }
   if (a.has_case) {
     auto m = bsx::kvs(a.cas);
-    Cfg c{atoi(m["nt"].c_str()), atoi(m["F"].c_str()), atoi(m["ff"].c_str()), atoi(m["N"].c_str()), m["ord"] == "1"};
+    Cfg c{atoi(m["nt"].c_str()), atoi(m["F"].c_str()), atoi(m["ff"].c_str()), atoi(m["N"].c_str()), m["ord"] == "1", m["ul"] == "1"};
     std::vector<int> sched = vsx::parse_sched(m["sched"]);
     vsx::Explorer ex;
     ex.horizon = horizon;
@@ -253,7 +254,7 @@ int main(int argc, char **argv) {
           for (int N : {-1, 0, 1, 2, F + 1}) {
             if (F == 0 && (ff > 0 || N >= 0)) continue;
             if (N == F + 1 && (N == 1 || N == 2)) continue;  // duplicate of an earlier value
-            cfgs.push_back({nt, F, ff, N, ord == 1});
+            cfgs.push_back({nt, F, ff, N, ord == 1, true});
           }
   auto bound_for = [&](const Cfg &c) {
     if (c.nt == 1) return 1;
@@ -261,7 +262,7 @@ int main(int argc, char **argv) {
     return c.nt == 2 ? 3 : (c.nt == 3 ? 2 : 1);
   };
   R.rule = "all schedules (stateless DFS over the choice sequences of the vsched controlled scheduler; scheduling points: thread "
-           "start/create/exit, every blocking mutex acquire, join, and harness yields inside the stub reader, EvalConfiguration and "
+           "start/create/exit, every blocking mutex acquire, the instant after every mutex release, join, and harness yields inside the stub reader, EvalConfiguration and "
            "MergeWorker) with <= k preemptions of the real CsgApplication::Run driven through Application::Exec, for nt x frames-in-file x "
            "--first-frame x --nframes x ordered/unordered; k = 1 (quick) / 3,2,1 for nt=2,3,4 (thorough). Oracle per execution: "
            "no reader/merge overlap, reads in file order, every selected frame evaluated exactly once, ordered merge = single-thread "
